@@ -331,6 +331,8 @@ pub struct IoCase {
     pub monitored: bool,
     /// capacity of the monitored IoBuffer (None: the documented 2 * max(max_msg_len, MIN_SIZE))
     pub buf_cap: Option<usize>,
+    /// capacity of the sender's buffer when it is built by hand instead of by `io()` (any capacity that can hold the largest message)
+    pub snd_cap: Option<usize>,
     /// bytes fed to the receiver instead of what the sender produced (C10)
     pub stream: Option<Vec<u8>>,
     /// how many times a failed recv is retried (C09)
@@ -387,7 +389,10 @@ pub fn run_blocking<M: Shape + ?Sized>(c: &IoCase) -> IoTrace {
         let sends_cell: RefCell<Vec<Result<(), String>>> = RefCell::new(Vec::new());
         let r = crate::engine::guarded(|| {
             let sends = &sends_cell;
-            let mut sender = Sender::<M, _>::io(ScriptedWriter(ws), c.max_msg_len);
+            let mut sender = match c.snd_cap {
+                Some(cap) => Sender::<M, _>::new(IoBuffer::new(ScriptedWriter(ws), cap, M::ALIGN)),
+                None => Sender::<M, _>::io(ScriptedWriter(ws), c.max_msg_len),
+            };
             for (v, style) in &c.msgs {
                 let guard = match sender.alloc() {
                     Ok(g) => g,
@@ -684,6 +689,7 @@ pub fn run_async<M: Shape + ?Sized>(c: &IoCase) -> IoTrace {
         let marks2 = done_marks.clone();
         let msgs = c.msgs.clone();
         let max = c.max_msg_len;
+        let snd_cap = c.snd_cap;
         let send_after_error = c.send_after_error;
         let skip_sender = c.stream.is_some();
         let sender_task = async move {
@@ -691,7 +697,10 @@ pub fn run_async<M: Shape + ?Sized>(c: &IoCase) -> IoTrace {
                 return;
             }
             let log_state = ws.clone();
-            let mut sender = AsyncSender::<M, _>::io(AsyncW(ws), max);
+            let mut sender = match snd_cap {
+                Some(cap) => AsyncSender::<M, _>::new(IoBuffer::new(AsyncW(ws), cap, M::ALIGN)),
+                None => AsyncSender::<M, _>::io(AsyncW(ws), max),
+            };
             for (v, style) in msgs.iter() {
                 let guard = match sender.alloc().await {
                     Ok(g) => g,
